@@ -64,6 +64,12 @@ func TestC04(t *testing.T) {
 	labelled.tpls = []string{"A", lbl}
 	labelled.first = []w.Event{evb("setTemplate", edsKey, lbl)}
 	scs = append(scs, labelled)
+	// a canary template that is narrower than the active one (it adds a nodeSelector): the node outside the selector is no
+	// business of the canary and keeps its pod of the active template for as long as the canary lasts
+	narrow := scOpt{name: "S3-canary-1-template-narrows-eligibility", nodes: []string{"n1:k=a", "n2:k=a", "n3"}, tpls: []string{"A", "B+nodesel:k=a"},
+		eds:   []w.EDSOpt{w.WithCanary("1", 10*time.Minute, 0, "auto"), w.WithAuto(true, 1, true, 2)},
+		first: []w.Event{evb("setTemplate", edsKey, "B+nodesel:k=a")}, alpha: &w.Alpha{Kubectl: []string{"canary-validate", "canary-fail"}, PodDev: []string{"unready"}}, budget: 1}
+	scs = append(scs, narrow)
 	if h.Thorough() {
 		faulty := canaryDev()
 		faulty.EDSFaults = []string{"lost:update ExtendedDaemonSet", "reject:list Node", "reject:list Pod"}
@@ -71,7 +77,7 @@ func TestC04(t *testing.T) {
 		scsExtra := corpusS3(n3, "2", "auto", 1, faulty)
 		scsExtra.name = "S3-canary-2-auto-with-faults"
 		n4 := []string{"n1", "n2", "n3", "n4"}
-		scs = []scOpt{scsExtra, edits, labelled, corpusS3(n3, "1", "auto", 2, canaryDev()), corpusS3(n4, "50%", "auto", 2, canaryDev()), corpusS3(n4, "2", "manual", 1, canaryDev())}
+		scs = []scOpt{scsExtra, edits, labelled, narrow, corpusS3(n3, "1", "auto", 2, canaryDev()), corpusS3(n4, "50%", "auto", 2, canaryDev()), corpusS3(n4, "2", "manual", 1, canaryDev())}
 	}
 	runWorld(t, run, scs, []func(*w.MonCtx){w.MonC04}, 0)
 	requireAntecedents(run, "C04a/new-template-create", "C04c/active-sync-during-canary", "C04d/label-expected", "C04b/selection")
